@@ -166,11 +166,24 @@ theorem cfa_pass_corrects_announced {ε : Type} (keep : ε → Bool) (f : CFA ε
     unfold catalogNTestPub at this
     rw [this]; simp [hlen]
 
-/-! ### the NBD probability parameter in float64 -/
+/-! ### the NBD probability parameter in float64 (fix D47: `upsilon = mean / var`) -/
 
-/-- float64: for doubles 0 < mean ≤ var the code's `upsilon = 1.0 - ((var - mean) / var)` is a number in [0, 1] -/
-theorem upsilon_float_range {mean var : ℚ} (hv : Soft64.IsF64 var) (hm : 0 < mean) (hmv : mean ≤ var) :
-    0 ≤ upsilonF mean var ∧ upsilonF mean var ≤ 1 := upsilonF_range hv hm hmv
+/-- float64: for 0 < mean ≤ var the code's `upsilon = mean / var` is a number in [0, 1] -/
+theorem upsilon_float_range {mean var : ℚ} (hm : 0 < mean) (hmv : mean ≤ var) :
+    0 ≤ upsilonF mean var ∧ upsilonF mean var ≤ 1 := upsilonF_range hm hmv
+
+/-- ... it is the correctly rounded quotient: relative error at most 2^-53 whenever mean/var ≥ 2^-1022 (every pair of
+    the property's range: totals ≥ 1e-6 against any double variance) -/
+theorem upsilon_float_rel_err {mean var : ℚ} (hm : 0 < mean) (hv : 0 < var) (hn : Soft64.pow2 (-1022) ≤ mean / var) :
+    |upsilonF mean var - mean / var| ≤ Soft64.pow2 (-53) * (mean / var) := upsilonF_rel_err hm hv hn
+
+/-- ... and never 0 there: the law handed to scipy is never degenerate (no nan), p ≥ (1 − 2^-53)·mean/var > 0 -/
+theorem upsilon_float_pos {mean var : ℚ} (hm : 0 < mean) (hv : 0 < var) (hn : Soft64.pow2 (-1022) ≤ mean / var) :
+    (1 - Soft64.pow2 (-53)) * (mean / var) ≤ upsilonF mean var ∧ 0 < upsilonF mean var := upsilonF_pos hm hv hn
+
+/-- the formula of the code BEFORE D47, `1.0 - ((var - mean) / var)`, also stays in [0, 1] for doubles 0 < mean ≤ var … -/
+theorem upsilon_old_float_range {mean var : ℚ} (hv : Soft64.IsF64 var) (hm : 0 < mean) (hmv : mean ≤ var) :
+    0 ≤ upsilonOldF mean var ∧ upsilonOldF mean var ≤ 1 := upsilonOldF_range hv hm hmv
 
 /-- float64: whatever number in [0, 1] scipy's cdf returns, `delta1 = 1.0 - cdf` is again a double in [0, 1]: the
     clause "both lie in [0,1]" survives the one float operation the code adds to scipy's value -/
@@ -181,22 +194,22 @@ theorem delta1_float_range {c : ℚ} (h0 : 0 ≤ c) (h1 : c ≤ 1) : 0 ≤ Soft6
       _ ≤ Soft64.fl64 1 := Soft64.fl64_mono (by linarith)
       _ = 1 := Soft64.fl64_one
 
-/-- ... and the lower end IS attained inside the property's quantifier (variance > mean, total 1, variance 1e17):
-    the code's probability parameter is exactly 0 — a degenerate law, scipy answers nan — while `mean / var`, the same
-    number without the cancellation, is the positive double nearest 1e-17. Candidate finding (notes/C07.md). -/
+/-- … but its lower end WAS attained inside the property's quantifier (variance > mean, total 1, variance 1e17): the old
+    probability parameter is exactly 0 — a degenerate law, scipy answers nan — while the repaired `mean / var` is the
+    positive double nearest 1e-17. Finding D47 (repaired in /repo; reverting the fix is reported by the corpus witnesses). -/
 theorem finding_nbd_upsilon_zero :
-    upsilonF 1 (10 ^ 17) = 0 ∧ 0 < upsilonDirectF 1 (10 ^ 17) ∧ Soft64.IsF64 ((10 : ℚ) ^ 17) := by
+    upsilonOldF 1 (10 ^ 17) = 0 ∧ 0 < upsilonF 1 (10 ^ 17) ∧ Soft64.IsF64 ((10 : ℚ) ^ 17) := by
   refine ⟨by decide +kernel, by decide +kernel, ?_⟩
   have : (10 : ℚ) ^ 17 = ((762939453125 : ℤ) : ℚ) * Soft64.pow2 17 := by
     rw [Soft64.pow2_eq_zpow]; norm_num
   rw [this]
   exact Soft64.isF64_dyadic _ _ (by norm_num) (by norm_num)
 
-/-- the cancellation also costs accuracy long before that: at total 1 and variance 1e10 the code's parameter is
-    56295·2^-49, the correctly rounded mean/var is 7737125245533627·2^-86: they differ by 8.3e-8 relative -/
+/-- the cancellation of the old formula cost accuracy long before that: at total 1 and variance 1e10 it gave
+    56295·2^-49, the correctly rounded mean/var (the repaired code) is 7737125245533627·2^-86: 8.3e-8 relative apart -/
 theorem finding_nbd_upsilon_inexact :
-    upsilonF 1 (10 ^ 10) = 56295 / 562949953421312 ∧
-    upsilonDirectF 1 (10 ^ 10) = 7737125245533627 / 77371252455336267181195264 := by
+    upsilonOldF 1 (10 ^ 10) = 56295 / 562949953421312 ∧
+    upsilonF 1 (10 ^ 10) = 7737125245533627 / 77371252455336267181195264 := by
   constructor <;> decide +kernel
 
 -- non-vacuity
@@ -209,8 +222,12 @@ example : (catalogNTestCFA (fun _ : ℕ => true) ⟨⟨[[1, 1], [1, 1, 1], [1, 1
 
 example : ((GF.init [1, 2, (3 : ℝ)]).applyAll [.set 5, .toDate true (1 / 2), .toDate false 7]).eventCount = 3 := by
   rw [history_eq_effective, forecast_total_after_scaling]; norm_num [effective]
-example : 0 ≤ upsilonF 2 8 ∧ upsilonF 2 8 ≤ 1 :=
-  upsilon_float_range (by simpa using Soft64.isF64_int 8 (by norm_num)) (by norm_num) (by norm_num)
+example : 0 ≤ upsilonF 2 8 ∧ upsilonF 2 8 ≤ 1 := upsilon_float_range (by norm_num) (by norm_num)
+example : 0 < upsilonF 1 (10 ^ 17) :=
+  (upsilon_float_pos (by norm_num) (by norm_num)
+    ((Soft64.pow2_mono (by norm_num : (-1022 : ℤ) ≤ -60)).trans (by rw [Soft64.pow2_eq_zpow]; norm_num))).2
+example : 0 ≤ upsilonOldF 2 8 ∧ upsilonOldF 2 8 ≤ 1 :=
+  upsilon_old_float_range (by simpa using Soft64.isF64_int 8 (by norm_num)) (by norm_num) (by norm_num)
 example : shiftFE (999 / 1000) 100000 = (99999, 100000) :=
   float_floor_shift_eps 10 (by norm_num) _ (by rw [Soft64.pow2_eq_zpow]; norm_num)
     (by rw [Soft64.pow2_eq_zpow]; norm_num) _ (by norm_num)
